@@ -249,7 +249,7 @@ def classify_c03(v, h, text):
         if scheme and path and not path.startswith("/") and val and val.startswith("L5:") and val[3:].split(",")[1] == "":
             return "scheme-with-rootless-path-and-no-authority"
     if rh is not None and rh.startswith("v") and ":" in rh:
-        return "ipvfuture-host"
+        return "bracketed-host-not-ipv6"
     return None
 
 
@@ -427,9 +427,12 @@ def ref_unquote(s, qs=False, unsafe="", ignore=""):
     n = len(s)
     hexd = "0123456789abcdefABCDEF"
 
-    def requote(ch):
-        if ch == "%":
-            return "%25"
+    DEFAULT_SAFE = "abcdefghijklmnopqrstuvwxyzABCDEFGHIJKLMNOPQRSTUVWXYZ0123456789-._~!$'()*,"
+
+    def requote(ch, qsq=False):
+        # what `_Quoter()` / `_Quoter(qs=True)` give for one decoded character
+        if ch in DEFAULT_SAFE or (not qsq and ch in "+&=;"):
+            return ch
         return "".join("%%%02X" % x for x in ch.encode("utf-8"))
 
     while i < n:
@@ -452,7 +455,7 @@ def ref_unquote(s, qs=False, unsafe="", ignore=""):
                             continue
                         if len(ch) == 1:
                             if qs and ch in "+=&;":
-                                out.append(requote(ch))
+                                out.append(requote(ch, True))
                             elif ch in unsafe or ch in ignore:
                                 out.append(requote(ch))
                             else:
